@@ -143,6 +143,10 @@ func (w *world) commit(c *ibctesting.TestChain) {
 	fixHeader(c)
 }
 
+// stage names the step of the world construction that is itself an instance of the property (an honest ICS-20
+// transfer through the middleware): when the construction dies there, that is a verdict, not a harness problem.
+var stage string
+
 func must(err error, what string) {
 	if err != nil {
 		panic(fmt.Sprintf("world construction: %s: %v", what, err))
@@ -362,13 +366,17 @@ func (w *world) escrowNative() {
 			}
 			th := clienttypes.NewHeight(clienttypes.ParseChainID(w.A.ChainID), 1_000_000)
 			msg := transfertypes.NewMsgTransfer(c.dstPort, c.dstChan, coin, w.B.SenderAccount.GetAddress().String(), w.A.SenderAccount.GetAddress().String(), th, 0)
+			stage = "honest-ics20/outbound-MsgTransfer"
 			_, err := w.B.SendMsgs(msg)
 			must(err, "B->A transfer")
+			stage = ""
 			fixHeader(w.B)
 			data := transfertypes.NewFungibleTokenPacketData(coin.Denom, coin.Amount.String(), w.B.SenderAccount.GetAddress().String(), w.A.SenderAccount.GetAddress().String())
 			pkt := channeltypes.NewPacket(data.GetBytes(), seq, c.dstPort, c.dstChan, c.srcPort, c.srcChan, th, 0)
 			must(c.path.EndpointA.UpdateClient(), "update client on A")
+			stage = "honest-ics20/receive-of-a-valid-packet"
 			must(c.path.EndpointA.RecvPacket(pkt), "recv on A")
+			stage = ""
 			fixHeader(w.A)
 			fixHeader(w.B)
 		}
